@@ -264,6 +264,9 @@ inductive Op (α : Type) where
   | bootEval (e : Eval α)
 deriving Repr
 
+/-- `_save_iterations_file_name`: the file of a model is `__<modelName>.iter`, every character of the name kept -/
+def iterFileName (n : String) : String := "__" ++ n ++ ".iter"
+
 /-- model name ↦ values in `__<name>.iter` -/
 abbrev Files := List (String × List String)
 
